@@ -92,11 +92,12 @@ def run_book(case):
     # history on ONE ham_data dict (as a driver that refreshes its intermediates does): intermediates first built for another mean-field
     # density / reference energy / constant, then rebuilt for the present ones, must equal a fresh build - and it is the REBUILT dict
     # that the steps below use
-    hd_dirty = dict(hd)
+    hd_dirty = {k_: hd[k_] for k_ in ("h0", "h1", "chol", "ene0") if k_ in hd}   # raw entries only: the first build below fills in the rest
     wd_other = dict(wdat)
     wd_other["rdm1"] = wdat["rdm1"] * 0.5 + 0.1 * jnp.eye(norb)[None]
     hd_dirty["ene0"] = case["ene0"] + 1.7
     hd_dirty["h0"] = hd["h0"] - 0.9
+    hd_dirty = S["ham"].build_measurement_intermediates(hd_dirty, trial, wd_other)
     hd_dirty = S["ham"].build_propagation_intermediates(hd_dirty, prop, trial, wd_other)
     hd_dirty["ene0"], hd_dirty["h0"] = hd["ene0"], hd["h0"]
     hd_dirty = S["ham"].build_measurement_intermediates(hd_dirty, trial, wdat)
